@@ -53,6 +53,10 @@ theorem C19_ripemd160_py_overflow (data : Bytes) (h : 2 ^ 61 ≤ data.length) :
 example : Ripemd160Py.ripemd160 [0x61, 0x62, 0x63] = .ok (ripemd160 [0x61, 0x62, 0x63]) :=
   C19_ripemd160_py_eq_spec _ (by decide)
 
+/-- the hypothesis of the overflow theorem is satisfiable (by a list nobody can store) -/
+example : 2 ^ 61 ≤ (List.replicate (2 ^ 61) (0 : UInt8)).length := by
+  rw [List.length_replicate]; exact Nat.le_refl _
+
 /-! ## MurmurHash3: the Bloom-filter hash -/
 
 /-- **C19.murmur3_py_eq_spec** — for every byte string and every integer seed (any width, any sign),
